@@ -28,6 +28,7 @@ import (
 	"errors"
 	"fmt"
 	"net"
+	"net/url"
 	"os"
 	"path/filepath"
 	"strconv"
@@ -37,6 +38,7 @@ import (
 	"time"
 
 	pt "gitlab.torproject.org/tpo/anti-censorship/pluggable-transports/goptlib"
+	"golang.org/x/net/proxy"
 
 	"gitlab.com/yawning/obfs4.git/common/log"
 	"gitlab.com/yawning/obfs4.git/transports"
@@ -311,6 +313,32 @@ func verifObfs4Handshake(sf base.ServerFactory, local, peer net.Addr, info *pt.S
 	return hs, nil
 }
 
+// verifProxyConn is what the hook's proxy dialer hands out for the next outgoing connection.
+var verifProxyConn func() net.Conn
+
+type verifProxyDialer struct{}
+
+func (verifProxyDialer) Dial(string, string) (net.Conn, error) {
+	if verifProxyConn == nil {
+		return nil, errors.New("verif: no scripted outgoing connection")
+	}
+	return verifProxyConn(), nil
+}
+
+var verifProxyOnce sync.Once
+
+func verifProxyURL() *url.URL {
+	verifProxyOnce.Do(func() {
+		proxy.RegisterDialerType("verifconn", func(*url.URL, proxy.Dialer) (proxy.Dialer, error) {
+			return verifProxyDialer{}, nil
+		})
+	})
+	return &url.URL{Scheme: "verifconn", Host: "scripted"}
+}
+
+// verifTimeoutErr: what a read deadline produces (os.ErrDeadlineExceeded: "i/o timeout").
+func verifTimeoutErr() error { return os.ErrDeadlineExceeded }
+
 func verifLogRun(w []string) string {
 	if len(w) < 4 {
 		return "bad-op"
@@ -371,6 +399,7 @@ func verifLogRun(w []string) string {
 	defer close(stop)
 
 	var run func()
+	var proxyURI *url.URL
 	switch who {
 	case "client":
 		socks, err := verifSocksRequest(kv["target"])
@@ -406,10 +435,28 @@ func verifLogRun(w []string) string {
 				&net.OpError{Op: "read", Net: "tcp", Source: localTCP, Addr: &net.TCPAddr{IP: errIP, Port: 443}, Err: os.NewSyscallError("read", syscall.ECONNRESET)},
 				[]byte("payload"))
 		default:
-			if !strings.HasPrefix(path, "real-") || !strings.HasSuffix(path, "-dial") {
+			i := strings.LastIndexByte(path, '-')
+			if !strings.HasPrefix(path, "real-") || i < 6 {
 				return "bad-op"
 			}
-			name := strings.TrimSuffix(strings.TrimPrefix(path, "real-"), "-dial")
+			name, what := path[5:i], path[i+1:]
+			switch what {
+			case "dial":
+			case "readerr", "timeout":
+				// connected; writes are accepted; the read of the answer fails, with addresses
+				var inner error = os.NewSyscallError("read", syscall.ECONNRESET)
+				if what == "timeout" {
+					inner = verifTimeoutErr()
+				}
+				rerr := &net.OpError{Op: "read", Net: "tcp", Source: localTCP, Addr: &net.TCPAddr{IP: errIP, Port: 443}, Err: inner}
+				verifProxyConn = func() net.Conn {
+					return verifNewLogConn(local, verifStrAddr{net.JoinHostPort(errIP.String(), "443")}, rerr)
+				}
+				defer func() { verifProxyConn = nil }()
+				proxyURI = verifProxyURL()
+			default:
+				return "bad-op"
+			}
 			dir, err := verifRealStateDir()
 			if err != nil {
 				return "error " + strings.ReplaceAll(err.Error(), " ", "_")
@@ -443,7 +490,7 @@ func verifLogRun(w []string) string {
 				return "bad-op"
 			}
 			rconn := verifNewLogConn(local, peer, nil, asocks...)
-			run = func() { clientHandler(rcf, rconn, nil) }
+			run = func() { clientHandler(rcf, rconn, proxyURI) }
 		}
 		if path == "relay-eof" {
 			f.remote.(*verifLogConn).endErr = verifEOF()
@@ -464,13 +511,32 @@ func verifLogRun(w []string) string {
 		case "relay-operr":
 			f.remote = verifNewLogConn(local, peer, readErr, []byte("payload"))
 		default:
-			if !strings.HasPrefix(path, "real-obfs4-") {
+			if !strings.HasPrefix(path, "real-") {
 				return "bad-op"
 			}
 		}
 		info := &pt.ServerInfo{OrAddr: verifOrHoldPort()}
 		run = func() { serverHandler(f, conn, info) }
-		if strings.HasPrefix(path, "real-obfs4-") {
+		if strings.HasPrefix(path, "real-") && strings.HasSuffix(path, "-readerr") {
+			name := strings.TrimSuffix(strings.TrimPrefix(path, "real-"), "-readerr")
+			var sf base.ServerFactory
+			_, err := verifRealStateDir()
+			if err == nil {
+				if name == "obfs4" {
+					sf, err = verifObfs4Server()
+				} else if t := transports.Get(name); t != nil {
+					sf, err = t.ServerFactory(verifRealDir, &pt.Args{})
+				} else {
+					return "bad-op"
+				}
+			}
+			if err != nil {
+				return "error " + strings.ReplaceAll(err.Error(), " ", "_")
+			}
+			// some bytes of a would-be handshake, then the read fails (reset, with addresses)
+			rconn := verifNewLogConn(local, peer, readErr, bytes.Repeat([]byte{0x5a, 0xa7, 0x13}, 30))
+			run = func() { serverHandler(sf, rconn, info) }
+		} else if strings.HasPrefix(path, "real-obfs4-") {
 			sf, err := verifObfs4Server()
 			if err != nil {
 				return "error " + strings.ReplaceAll(err.Error(), " ", "_")
